@@ -17,7 +17,6 @@ import "sync"
 // Aliases for the types whose blocking synctest already understands.
 type (
 	WaitGroup = sync.WaitGroup
-	Once      = sync.Once
 	Map       = sync.Map
 	Pool      = sync.Pool
 	Cond      = sync.Cond
@@ -29,6 +28,23 @@ func NewCond(l Locker) *Cond { return sync.NewCond(l) }
 
 // OnceFunc mirrors sync.OnceFunc.
 func OnceFunc(f func()) func() { return sync.OnceFunc(f) }
+
+// Once is sync.Once whose concurrent callers block on a channel while the first
+// call runs (sync.Once blocks them on a sync.Mutex, which is not durable).
+type Once struct {
+	m    Mutex
+	done bool
+}
+
+// Do calls f if and only if Do is being called for the first time.
+func (o *Once) Do(f func()) {
+	o.m.Lock()
+	defer o.m.Unlock()
+	if !o.done {
+		defer func() { o.done = true }()
+		f()
+	}
+}
 
 // Mutex is a mutual exclusion lock whose waiters block on a channel.
 type Mutex struct {
